@@ -8,29 +8,9 @@
    none: proc_location consumes the expression later).  The theorems quantify over ALL such call lists.
    The one clause that fails on the unchanged tree is `frames` (exception set computed in Model/C16.lean from the
    generated grammar): proved for frame-balanced lists, negated for lists with an abandoned binder. -/
-import UtapModel.Model.C16
+import UtapModel.Lemmas.C16
 
 namespace UtapModel.Builder
-
-/-- callbacks a label's token string can fire before the label's own callback -/
-def Call.isExprCall : Call → Bool
-  | .handleError | .handleWarning | .frag _ _ | .exprIdentifier _ | .quantBegin _ | .quantEnd | .dynQuantBegin _ | .dynQuantEnd
-  | .typeDuplicate | .typePop | .typePrim _ _ _ | .typeName _ | .typeArrayOfSize _ | .typeArrayOfType _ | .typeStruct | .structField => true
-  | _ => false
-
-/-- effect of an expression-level callback on the depth of the frame stack -/
-def Call.frameDelta : Call → Int
-  | .quantBegin _ | .dynQuantBegin _ => 1
-  | .quantEnd | .dynQuantEnd => -1
-  | _ => 0
-
-/-- depth of frames pushed above the entry level after the list; `none` if the list pops below its entry level -/
-def frameBal : Nat → List Call → Option Nat
-  | d, [] => some d
-  | d, c :: cs =>
-    if c.frameDelta = 1 then frameBal (d + 1) cs
-    else if c.frameDelta = -1 then (if d = 0 then none else frameBal (d - 1) cs)
-    else frameBal d cs
 
 /-- an expression-level callback never touches the document, the current edge or the current template -/
 theorem C16_expr_call_keeps_doc (s : BState) (c : Call) (h : c.isExprCall = true) :
@@ -108,12 +88,6 @@ theorem C16_label_frame (κ : LabelKind) (t : List Call) (ht : ∀ c ∈ t, c.is
     · exact ⟨s'.nextExpr, by simp [LabelKind.call, LabelKind.set, step, BState.setEdge, he, BState.popFrag, BState.fresh, hd]⟩
     · exact ⟨s'.frag0, by simp [LabelKind.call, LabelKind.set, step, BState.setEdge, he, BState.popFrag, hd]⟩
     · exact ⟨s'.frag0, by simp [LabelKind.call, LabelKind.set, step, BState.setEdge, he, BState.popFrag, hd]⟩
-
-theorem typeName_frames (s : BState) (n : String) : (step s (.typeName n)).frames = s.frames := by
-  simp only [step]
-  cases s.resolveSym n with
-  | none => rfl
-  | some p => obtain ⟨sid, ⟨nm, ty, u⟩⟩ := p; cases ty <;> rfl
 
 /-- `frames` clause: a label text whose binder pushes and pops are balanced leaves the frame stack as it found it;
     in general the stack is the old one with exactly `d` frames on top, `d` = number of abandoned binders -/
@@ -206,11 +180,44 @@ theorem C16_exception_shapes : UtapModel.C16.exceptionShapes =
     ["expr_sum_begin", "expr_forall_begin", "expr_exists_begin", "expr_forall_dynamic_begin", "expr_exists_dynamic_begin",
      "expr_sum_dynamic_begin", "expr_foreach_dynamic_begin"] := by decide +kernel
 
-/- Not proved (full statements kept):
-   theorem C16_fragments_suffix : for label texts that never pop below their entry level, `s.fragments` is a suffix of
-     `(run s t).fragments` (needs the per-callback operand counts of C01's `LocallyBalanced`);
-   theorem C16_decl_prefix : declarations completed before a faulted one are present and unchanged (in the model: `doc.vars`,
-     `doc.funs` and the symbol heap only grow and keep names/types) -- checked on the real library by truncation / token
-     deletion inside every declaration of the seed models. -/
+/-- a label text that never reaches below its entry level leaves every older operand in place: the old expression
+    stack is a suffix of the new one (left-overs of a faulted label sit above it and are inert for later labels,
+    which index from the top) -/
+theorem C16_fragments (t : List Call) (ht : ∀ c ∈ t, c.isExprCall = true) (s : BState) (d0 d : Nat) (pushed base : List Expr)
+    (hs : pushed.length = d0) (hf : s.fragments = pushed ++ base) (hb : fragBal d0 t = some d) :
+    ∃ pushed', pushed'.length = d ∧ (run s t).fragments = pushed' ++ base := by
+  induction t generalizing s d0 pushed with
+  | nil => simp [fragBal] at hb; subst hb; exact ⟨pushed, hs, hf⟩
+  | cons c cs ih =>
+    have hc := ht c List.mem_cons_self
+    have hcs : ∀ c' ∈ cs, c'.isExprCall = true := fun c' hc' => ht c' (List.mem_cons_of_mem _ hc')
+    simp only [fragBal] at hb
+    split at hb
+    · cases hb
+    · rename_i hge
+      obtain ⟨new, hnl, hne⟩ := frag_effect s c hc
+      simp only [run, List.foldl] at ih ⊢
+      refine ih hcs (step s c) (d0 - c.fragNeed.1 + c.fragNeed.2) (new ++ pushed.drop c.fragNeed.1) ?_ ?_ hb
+      · simp [hnl, hs]; omega
+      · rw [hne, hf, List.drop_append_of_le_length (by omega), List.append_assoc]
+
+theorem C16_fragments_suffix (t : List Call) (ht : ∀ c ∈ t, c.isExprCall = true) (s : BState) (d : Nat)
+    (hb : fragBal 0 t = some d) : s.fragments <:+ (run s t).fragments := by
+  obtain ⟨p, _, hr⟩ := C16_fragments t ht s 0 d [] s.fragments rfl (by simp) hb
+  exact ⟨p, hr.symm⟩
+
+example : fragBal 0 [Call.frag 0 1, .frag 0 1, .typePrim true 2 false, .quantBegin "i", .exprIdentifier "i", .handleError] = some 1 := by decide
+
+
+/-- C16, declaration blocks: whatever callbacks follow (a faulted declaration, error recovery, anything), every variable and
+    function declared so far stays in place, and its symbol keeps its name and its object -/
+theorem C16_decl_prefix (s : BState) (cs : List Call) : Grows s (run s cs) := by
+  induction cs generalizing s with
+  | nil => exact Grows.refl _
+  | cons c cs ih => exact Grows.trans (C16_decl_step s c) (ih (step s c))
+
+
+/- The declaration-block clause on the real library (truncation / token deletion inside declaration i keeps the
+   declarations < i unchanged) is checked by checks/c16.py; `C16_decl_prefix` is its model-level counterpart. -/
 
 end UtapModel.Builder
